@@ -65,7 +65,7 @@ primary_expr:
 		{
 			$$.s = ""
 			if n, err := strconv.ParseInt($1.s, 0, 0); err != nil {
-				yylex.Error(fmt.Sprintf("invalid number %q", $1.s))
+				fail(yylex, fmt.Sprintf("invalid number %q", $1.s))
 			} else {
 				$$.n = int(n)
 			}
@@ -82,20 +82,20 @@ postfix_expr:
 		{
 			$$.s = ""
 			if $1.s == "" {
-				yylex.Error(errLValue($2))
+				fail(yylex, errLValue($2))
 			} else if n, ok := expand(yylex, $1); ok {
 				$$.n = n
-				yylex.(*lexer).env.Set($1.s, strconv.Itoa($$.n + 1))
+				assign(yylex, $1.s, $$.n + 1)
 			}
 		}
 	|	postfix_expr DEC
 		{
 			$$.s = ""
 			if $1.s == "" {
-				yylex.Error(errLValue($2))
+				fail(yylex, errLValue($2))
 			} else if n, ok := expand(yylex, $1); ok {
 				$$.n = n
-				yylex.(*lexer).env.Set($1.s, strconv.Itoa($$.n - 1))
+				assign(yylex, $1.s, $$.n - 1)
 			}
 		}
 
@@ -105,20 +105,20 @@ unary_expr:
 		{
 			$$.s = ""
 			if $2.s == "" {
-				yylex.Error(errLValue($1))
+				fail(yylex, errLValue($1))
 			} else if n, ok := expand(yylex, $2); ok {
 				$$.n = n + 1
-				yylex.(*lexer).env.Set($2.s, strconv.Itoa($$.n))
+				assign(yylex, $2.s, $$.n)
 			}
 		}
 	|	DEC      unary_expr
 		{
 			$$.s = ""
 			if $2.s == "" {
-				yylex.Error(errLValue($1))
+				fail(yylex, errLValue($1))
 			} else if n, ok := expand(yylex, $2); ok {
 				$$.n = n - 1
-				yylex.(*lexer).env.Set($2.s, strconv.Itoa($$.n))
+				assign(yylex, $2.s, $$.n)
 			}
 		}
 	|	unary_op unary_expr
@@ -282,7 +282,7 @@ expr:
 		{
 			$$.s = ""
 			if $1.s == "" {
-				yylex.Error(errLValue($2))
+				fail(yylex, errLValue($2))
 			} else {
 				var ok bool
 				if $2 == "=" {
@@ -291,7 +291,7 @@ expr:
 					$$, ok = calculate(yylex, $1, $2[:len($2)-1], $3)
 				}
 				if ok {
-					yylex.(*lexer).env.Set($1.s, strconv.Itoa($$.n))
+					assign(yylex, $1.s, $$.n)
 				}
 			}
 		}
@@ -368,6 +368,20 @@ type expr struct {
 	s string
 }
 
+// fail reports an evaluation fault. No assignment is performed after the
+// first fault.
+func fail(yylex yyLexer, msg string) {
+	yylex.(*lexer).fault = true
+	yylex.Error(msg)
+}
+
+// assign sets the variable unless the evaluation has already failed.
+func assign(yylex yyLexer, name string, n int) {
+	if l := yylex.(*lexer); !l.fault {
+		l.env.Set(name, strconv.Itoa(n))
+	}
+}
+
 func errLValue(op string) string {
 	return fmt.Sprintf("'%v' requires lvalue", op)
 }
@@ -378,7 +392,7 @@ func expand(yylex yyLexer, x expr) (int, bool) {
 	} else if v, set := yylex.(*lexer).env.Get(x.s); !set || v.Value == "" {
 		return 0, true
 	} else if n, err := strconv.ParseInt(v.Value, 0, 0); err != nil {
-		yylex.Error(fmt.Sprintf("invalid number %q", v.Value))
+		fail(yylex, fmt.Sprintf("invalid number %q", v.Value))
 		return 0, false
 	} else {
 		return int(n), true
